@@ -536,7 +536,9 @@ def t9_substitute_refusals(ctx: Ctx):
             for r in [x for x in ast.walk(b) if isinstance(x, ast.Raise)]:
                 n += 1
                 tests = [g for g, arm in guards_of(fn, r, parents) if any(x is g for x in ast.walk(b))]
-                asks = [g for g in tests if g is not b.test and any(isinstance(x, ast.Name) and x.id == sub for x in ast.walk(g))]
+                is_type_error = 'TypeError' in norm(r)
+                asks = [g for g in tests if g is not b.test and any(isinstance(x, ast.Name) and x.id == sub for x in ast.walk(g))
+                        and (is_type_error or 'isinstance(' not in norm(g))]        # (a value's type is not what a ValueError is about)
                 ctx.check(bool(asks), rel, r, f'{cls}.__init__', f'`{norm(r)[:70]}` is raised for something the {sub} is',
                           f'raised under {[norm(g)[:50] for g in tests if g is not b.test] or "no test"}, none of which looks at `{sub}`: every substitute is refused in that configuration -- '
                           'EFloatContext(2, 4, False, NONE, 0, inf_value=Float(6)) "Cannot set Inf value to NaN"')
